@@ -99,6 +99,11 @@ def explicit_config_file_must_be_a_file(prog, rep, R):
                     seen_neg += 1
                     if any(nm.endswith("get_config_object_from_file") for nm, _ in calls):
                         blocked = False
+                # .. and every path on which the explicit file is handed to the builder has seen `is_file() == true` for it (a test that
+                # is only made under a further condition — "only for names without an extension" — leaves the other paths open)
+                handed = [a for nm, a in calls if nm.endswith("get_config_object_from_file") and any(re.search(r"\.config_file\b", str(x)) for x in a)]
+                if handed and not any(c[0] == "cond" and c[1].startswith("is_file(") and re.search(r"\.config_file\b", c[1]) and c[2] != 0 for c in cons):
+                    blocked = False
             blocked = blocked and seen_neg >= 1
         except TooComplex:
             blocked = None
